@@ -1,25 +1,34 @@
 """C10 — arranging local symbols partitions the table and keeps relocations on target.
 
-Proved (Props/C10.lean, about Model/Arrange.lean = the two-cursor loop of
-`generic_arrange_local_symbols<T>` on the section's *bytes*, `std::swap` as checked range moves,
-and `relocation_section_accessor::swap_symbols` through rdField/wrField; every guard, index and
-packing expression is generated into Gen/SitesC10.lean), for every symbol section that is
-resident, has `entsize >= sizeof(T)`, fewer than 2^32-1 entries, at least one entry and a local
-entry 0, in both classes and both encodings:
-  arrange_total      never faults (p1/p2 are dereferenced only when in range), the fuel n+1 of the
-                     model never runs out (arrange_fuel: at most n swaps)
-  arrange_perm       the records after are a permutation of the records before
-  arrange_partition  there is r with every index < r local, every index >= r non-local,
-                     record 0 unmoved
+Proved in Lean (Props/C10.lean) about Model/Arrange.lean — the two-cursor loop of
+`generic_arrange_local_symbols<T>` on the section's *bytes* (C++ integer widths, p1/p2 as checked
+buffer offsets, `std::swap` as two checked reads + two checked writes of sizeof(T) bytes, fuel n+1)
+and `relocation_section_accessor::swap_symbols` (get_entry/set_entry through rdField/wrField);
+every loop condition, ELF_ST_BIND test, the `first_not_local < count && current < count` decision,
+`index * entry_size`, the increments, callback arguments, set_info argument, return value,
+swap_symbols' comparisons, new indices and r_info packing are generated into Gen/SitesC10.lean.
+For every symbol section that is resident with entsize >= sizeof(T) and fewer than 2^32-1 records
+(`Ready`), both classes, both encodings, tables of any length:
+  arrange_refines    the model never faults and equals the abstract partition algorithm on the
+                     decoded table (Lemmas/ArrangeBytes.lean: loop_refines, table_swap)
+  arrange_total      no fault: p1/p2 are dereferenced only when in range; fuel never runs out
+  arrange_fuel       at most n swaps / callback invocations on n records
+  arrange_perm       (tables with >= 1 record whose record 0 is local:) the records after are a
+                     permutation of the records before
+  arrange_partition  exists r: every index < r local, every index >= r non-local, record 0 unmoved
   arrange_ret        return value = sh_info = r = index of the first non-local record
-  arrange_relocs     with the callback forwarded to relocation tables (REL/RELA, 32/64, symbol
-                     indices that fit the r_info field): every entry keeps offset, type and addend
-                     and table'[sym'(e)] = table[sym(e)]
-  arrange_empty      E1 exactly as the code behaves: an empty table returns 1 and sets sh_info = 1
-                     (the property presupposes the null symbol; not a violation)
-The abstract statements over `List α` (Lemmas/Arrange.lean: absArrange_*) are proved for all lists;
-the byte-level theorems follow through the refinement lemmas of Lemmas/ArrangeBytes.lean
-(loop_refines: the model on bytes = the abstract algorithm on the decoded table).
+  arrange_relocs     callback forwarded to any number of REL/RELA tables (`RelReady`: resident,
+                     entsize >= sizeof, symbol indices fit r_info: 24 bits ELF32 / 32 bits ELF64):
+                     same entry count, every entry keeps offset, type, addend, and
+                     table'[sym'(e)] = table[sym(e)]  (relEntryAt_getEntry: these are the values the
+                     model's get_entry reports)
+  arrange_empty      E1 exactly as the code behaves: whenever get_symbols_num() = 0 the code returns 1
+                     and sets sh_info = 1.  The property presupposes the null symbol ("stays first"):
+                     recorded, not demanded.
+The abstract theorems (Lemmas/Arrange.lean: absArrange_arranged, absArrange_relocs,
+absArrange_isSome, over `List α` with an opaque locality predicate, by induction over the loop)
+hold for all lists; Spec/Partition.lean states the post-condition from the property text.
+Nothing is left `_partial`.
 
 Correspondence: tables built with add_symbol/add_entry on the real accessors, arranged with a
 lambda forwarding to `swap_symbols` of every relocation table (harness/c10.cpp), against the model
@@ -27,7 +36,10 @@ lambda forwarding to `swap_symbols` of every relocation table (harness/c10.cpp),
 value / sh_info and relocation targets by content, from the case text and the transcript.
 
 Only correspondence-checked: the table builders (`add_symbol`, `add_entry`, `add_string` — C08, C09,
-C11 own them), the textual decoding of the dump, raw tables with entsize > sizeof(T).
+C11 own them), the dump decoder, raw tables (entsize > sizeof(T), entry 0 not local), the binding
+of generated expressions to their arguments (positional), lazily loaded sections (not generated).
+Outside every claim: tables of >= 2^32-1 symbols (first_not_local is 32 bits wide and wraps; the
+C++ loop then need not terminate), callbacks that modify the symbol section.
 """
 import itertools, struct
 
